@@ -120,9 +120,23 @@ def expr_vars(e, acc=None) -> set:
     return acc
 
 
+_FUNCS: dict = {}
+
+
 def mkfunc(name: str, args: list[str], body, stochastic: bool = False, ints: bool = True):
+    """The same source text gives the same function *object* within a process - as for a user who defines the model
+    functions once at module level and uses them in several specifications (what a cache keyed on function objects
+    inside the library would see)."""
     I = impl()
     code = f"def {name}({', '.join(args)}):\n    return {src(body, ints)}\n"
+    if (code, stochastic) in _FUNCS:
+        return _FUNCS[(code, stochastic)]
+    f = _mkfunc(I, name, code, stochastic)
+    _FUNCS[(code, stochastic)] = f
+    return f
+
+
+def _mkfunc(I, name, code, stochastic):
     ns = {"jnp": I.jnp}
     exec(code, ns)  # noqa: S102
     f = ns[name]
